@@ -413,7 +413,7 @@ def c05(tier):
     cases += mk("bus", 150 if q else 5000, s + 50, "default", n_ops=80, opts=dict(weights=w))
     res = run_cases(cases)
     return report("C05", "exploration", res,
-                  "the product {raw, unix, WebSocket} x role {idle, owner, subscriber, caller, owner of in-flight requests, both, unsent buffered output, everything} x "
+                  "the product {raw, unix, WebSocket} x role {idle, owner, subscriber, caller, owner of in-flight requests, both, unsent buffered output, everything, refused requests incl. an add the path index had no room for} x "
                   "phase {between messages, mid length prefix, mid message, after zero length / mid request line, mid headers, after 101, mid frame header, mid "
                   "payload, mid fragmented message} x ending {FIN, RST, oversize length, bad JSON, non-object, stray response / close frames 1000, 1001, 999, "
                   "1-byte, bad UTF-8, unmasked, RSV, reserved opcode} (%d cells; all of them once in quick, x 8 kernel policies in thorough) plus "
